@@ -173,6 +173,10 @@ class ModelServer(_RecMixin, UDSServer):
             raw = bytes([0x7F, sid, NRC_SNS])
         if c[0] == "Ans" and c[4] and code in (POS, NEG):
             self.state.reset()  # the ECU falls back to its default session by itself
+        if self.model.get("drop_after", {}).get(str(truth), {}).get(str(sid)) == len(pdu) - 1:
+            # ... or reboots on a probe it does not answer / rejects (crash, watchdog): model["drop_after"]
+            # = {session: {sid: payload length of the probe after which the session is gone}}
+            self.state.reset()
         resp = None if raw is None else _Raw(raw)
         self._rec(truth, pdu, resp)
         return resp
